@@ -18,6 +18,9 @@ package main
 
 import (
 	"bufio"
+	"bytes"
+	"context"
+	"encoding/json"
 	"encoding/binary"
 	"errors"
 	"fmt"
@@ -25,11 +28,13 @@ import (
 	"io"
 	"math/rand"
 	"os"
+	"os/exec"
 	"path/filepath"
 	"runtime"
 	"strconv"
 	"strings"
 	"sync"
+	"syscall"
 	"time"
 
 	"google.golang.org/protobuf/proto"
@@ -45,7 +50,13 @@ import (
 	"verif/harness/internal/vlib"
 )
 
-func main() { vlib.Main(run, replay) }
+func main() {
+	if len(os.Args) > 1 && os.Args[1] == "oversize-child" {
+		oversizeChild(os.Args[2:])
+		return
+	}
+	vlib.Main(run, replay)
+}
 
 // buffer sizes of pkg/synchronization/endpoint/remote/protocol.go (unexported there)
 const controlStreamBufferSize = 64 * 1024
@@ -474,43 +485,110 @@ func limbs(v uint64) []int {
 	return []int{int(v >> 48), int((v >> 24) & 0xffffff), int(v & 0xffffff)}
 }
 
-func oversizeRun(c *vlib.Ctx, algoN string, hi, mid, lo int, trailing int) {
-	algo := algoByName(algoN)
-	declared := uint64(hi)<<48 | uint64(mid)<<24 | uint64(lo)
-	h := newHub()
-	p := &pipe{h: h}
-	snd := newSender(p, algo, controlStreamBufferSize, controlStreamBufferSize)
-	rcv := newReceiver(p, algo, controlStreamBufferSize, controlStreamBufferSize)
-	var hdr [binary.MaxVarintLen64]byte
-	k := binary.PutUvarint(hdr[:], declared)
-	snd.outbound.Write(hdr[:k])
-	snd.outbound.Write(make([]byte, trailing))
-	snd.flusher.Flush()
-	p.close() // a decoder that goes for the body finds the end of the stream instead of blocking
-	msg := &rsync.Transmission{}
-	var before, after runtime.MemStats
-	panicked := false
-	var err error
-	runtime.ReadMemStats(&before)
-	func() {
-		defer func() {
-			if r := recover(); r != nil {
-				panicked = true
-				err = fmt.Errorf("panic: %v", r)
-			}
+// oversizeChild runs in a child process of the driver (a decoder that allocates what an
+// attacker declares can exhaust memory, which Go reports by killing the process). Arguments:
+// algorithm, then cases "hi:mid:lo:trailing". For each case it sends the raw prefix through the
+// chain, calls the real Decode once and prints one line with what it observed.
+func oversizeChild(args []string) {
+	if len(args) < 2 {
+		os.Exit(64)
+	}
+	// keep a runaway allocation from hurting the machine
+	lim := syscall.Rlimit{Cur: 24 << 30, Max: 24 << 30}
+	syscall.Setrlimit(syscall.RLIMIT_AS, &lim)
+	algo := algoByName(args[0])
+	for _, cs := range args[1:] {
+		var hi, mid, lo, trailing int
+		if _, err := fmt.Sscanf(cs, "%d:%d:%d:%d", &hi, &mid, &lo, &trailing); err != nil {
+			os.Exit(64)
+		}
+		declared := uint64(hi)<<48 | uint64(mid)<<24 | uint64(lo)
+		h := newHub()
+		p := &pipe{h: h}
+		snd := newSender(p, algo, controlStreamBufferSize, controlStreamBufferSize)
+		rcv := newReceiver(p, algo, controlStreamBufferSize, controlStreamBufferSize)
+		var hdr [binary.MaxVarintLen64]byte
+		k := binary.PutUvarint(hdr[:], declared)
+		snd.outbound.Write(hdr[:k])
+		snd.outbound.Write(make([]byte, trailing))
+		snd.flusher.Flush()
+		p.close() // a decoder that goes for the body finds the end of the stream instead of blocking
+		msg := &rsync.Transmission{}
+		var before, after runtime.MemStats
+		panicked := false
+		var err error
+		runtime.ReadMemStats(&before)
+		func() {
+			defer func() {
+				if r := recover(); r != nil {
+					panicked = true
+					err = fmt.Errorf("panic: %v", r)
+				}
+			}()
+			err = rcv.decoder.Decode(msg)
 		}()
-		err = rcv.decoder.Decode(msg)
-	}()
-	runtime.ReadMemStats(&after)
-	rcv.decompressor.Close()
+		runtime.ReadMemStats(&after)
+		rcv.decompressor.Close()
+		out, _ := json.Marshal(map[string]any{"err": errStr(err), "panicked": panicked,
+			"alloc_mb": int((after.TotalAlloc - before.TotalAlloc) >> 20)})
+		os.Stdout.Write(append(out, '\n'))
+		msg = nil
+		runtime.GC()
+	}
+}
+
+type overCase struct{ hi, mid, lo, trailing int }
+
+// oversizeRuns executes the cases in child processes: one child handles as many cases as it
+// survives; the case it died on is recorded as crashed and a new child takes the rest.
+func oversizeRuns(c *vlib.Ctx, algoN string, cases []overCase) {
+	self, err := os.Executable()
+	if err != nil {
+		vlib.Fatal("%v", err)
+	}
+	for len(cases) > 0 {
+		args := []string{"oversize-child", algoN}
+		for _, k := range cases {
+			args = append(args, fmt.Sprintf("%d:%d:%d:%d", k.hi, k.mid, k.lo, k.trailing))
+		}
+		ctx, cancel := context.WithTimeout(context.Background(), 300*time.Second)
+		cmd := exec.CommandContext(ctx, self, args...)
+		var stderr bytes.Buffer
+		cmd.Stderr = &stderr
+		stdout, _ := cmd.Output()
+		cancel()
+		done := 0
+		for _, line := range strings.Split(string(stdout), "\n") {
+			var obs struct {
+				Err      string `json:"err"`
+				Panicked bool   `json:"panicked"`
+				AllocMB  int    `json:"alloc_mb"`
+			}
+			if done >= len(cases) || json.Unmarshal([]byte(line), &obs) != nil {
+				continue
+			}
+			emitOversize(c, algoN, cases[done], obs.Err, obs.Panicked, false, obs.AllocMB, "")
+			done++
+		}
+		if done < len(cases) {
+			// the process died (out of memory, fatal error) or timed out on this case: that is the observation
+			first := strings.SplitN(stderr.String(), "\n", 2)[0]
+			emitOversize(c, algoN, cases[done], "", false, true, 0, errStr(errors.New(first)))
+			done++
+		}
+		cases = cases[done:]
+	}
+}
+
+func emitOversize(c *vlib.Ctx, algoN string, k overCase, e string, panicked, crashed bool, alloc int, crash string) {
 	rec := map[string]any{
-		"ev": "Oversize", "in": map[string]any{"algo": algoN, "declared": []int{hi, mid, lo}, "trailing": trailing},
-		"err": errStr(err), "panicked": panicked, "alloc_mb": int((after.TotalAlloc - before.TotalAlloc) >> 20),
+		"ev": "Oversize", "in": map[string]any{"algo": algoN, "declared": []int{k.hi, k.mid, k.lo}, "trailing": k.trailing},
+		"err": e, "panicked": panicked, "crashed": crashed, "alloc_mb": alloc, "crash": crash,
 	}
 	c.Emit(rec)
 	c.Eval()
 	c.NonTrivial(rec["in"])
-	if lo == 4194305 && hi == 0 {
+	if k.lo == 4194305 && k.hi == 0 {
 		c.Sample(rec)
 	}
 }
@@ -740,9 +818,10 @@ func run(c *vlib.Ctx) error {
 		under = append(under, limit)
 	}
 	for _, an := range names {
+		var cases []overCase
 		for _, v := range append(over, under...) {
 			l := limbs(v)
-			oversizeRun(c, an, l[0], l[1], l[2], 5)
+			cases = append(cases, overCase{l[0], l[1], l[2], 5})
 		}
 		for i := 0; i < argInt(c, "overrand", 20); i++ {
 			v := uint64(limit) + 1 + uint64(c.Rand.Int63n(1<<40))
@@ -750,8 +829,9 @@ func run(c *vlib.Ctx) error {
 				v = c.Rand.Uint64() | 1<<33
 			}
 			l := limbs(v)
-			oversizeRun(c, an, l[0], l[1], l[2], c.Rand.Intn(50))
+			cases = append(cases, overCase{l[0], l[1], l[2], c.Rand.Intn(50)})
 		}
+		oversizeRuns(c, an, cases)
 	}
 
 	// 4. the real assembly
@@ -791,7 +871,7 @@ func replay(c *vlib.Ctx) error {
 		vlib.Decode(in["declared"], &d)
 		var tr int
 		vlib.Decode(in["trailing"], &tr)
-		oversizeRun(c, in["algo"].(string), d[0], d[1], d[2], tr)
+		oversizeRuns(c, in["algo"].(string), []overCase{{d[0], d[1], d[2], tr}})
 	case "Assembly":
 		var fr []int
 		vlib.Decode(in["frags"], &fr)
